@@ -159,7 +159,8 @@ abbrev Pair := Str × Str
 /-- The containers for which metrique-core has a *forwarding* `impl InflectableEntry<NS>`
 (`inflectable_entry_impls.rs`: `&T`, `Option<T>`, `Box<T>`, `Arc<T>`, `Cow<'_, T>`;
 `close_value_impls.rs`: `ForceFlag<T, F>`, `WithDimensions<T, N>`). The list is regenerated by T-gen
-(`Generated.Naming.forwardingImpls`) and compared with `Wrapper.all` in `Props/C07.lean`. -/
+(`Generated.Naming.forwardingImpls`) and compared with `Wrapper.all` in `Props/C07.lean`; every one
+bounds `T: InflectableEntry<NS>` and overrides both `write` and `sample_group`. -/
 inductive Wrapper where
   | ref | option | box | arc | cow | forceFlag | withDims
   deriving Repr, DecidableEq
@@ -175,13 +176,6 @@ def Wrapper.rustType : Wrapper → String
   | .cow => "Cow<'_, T>"
   | .forceFlag => "ForceFlag<T, F>"
   | .withDims => "WithDimensions<T, N>"
-
-/-- does the forwarding impl override `sample_group` (the two impls in `close_value_impls.rs` only
-define `write`, so the trait's default — no pairs — applies) -/
-def Wrapper.forwardsSampleGroup : Wrapper → Bool
-  | .forceFlag => false
-  | .withDims => false
-  | _ => true
 
 mutual
 inductive Def where
@@ -316,9 +310,14 @@ structure Cfg where
   `impl<NS, T: InflectableEntry<NS>> InflectableEntry<NS> for W<T>` calling `T`'s methods, i.e. the
   identity (`Cfg.forwards`); kept as a parameter so that the theorems *state* that requirement. -/
   wrapNs : Wrapper → NS → NS := fun _ ns => ns
+  /-- does the forwarding impl override `sample_group` (forward it to the wrapped entry)? Without an
+  override the trait's default — no pairs — applies. In the code all seven do (the two impls in
+  `close_value_impls.rs` since fix 1af396b). -/
+  wrapSg : Wrapper → Bool := fun _ => true
 
-/-- every forwarding impl passes the name style and prefix chain on unchanged -/
-def Cfg.forwards (c : Cfg) : Prop := ∀ w ns, c.wrapNs w ns = ns
+/-- every forwarding impl passes the name style and prefix chain on unchanged, and forwards
+`sample_group` -/
+def Cfg.forwards (c : Cfg) : Prop := (∀ w ns, c.wrapNs w ns = ns) ∧ (∀ w, c.wrapSg w = true)
 
 /-- `make_inflect_metric_name` + `const_str_value`. -/
 def fieldNameX (c : Cfg) (a : Attrs) (ns : NS) (ident : Str) (nameOv : Option Str) : Str :=
@@ -393,7 +392,7 @@ mutual
 `collect_tuple_sample_group` call the child with `make_ns(rename_all)` only: the flatten prefix is
 *not* appended (known finding `naming:sample-group-misses-flatten-prefix`). -/
 def sgDef (c : Cfg) (ns : NS) : Def → List Pair
-  | .wrap w d => if w.forwardsSampleGroup then sgDef c (c.wrapNs w ns) d else []
+  | .wrap w d => if c.wrapSg w then sgDef c (c.wrapNs w ns) d else []
   | .struct a fs => sgFields c a ns fs
   | .enum a tag vi vn tuple fs =>
     tagSgX c a ns tag vi vn ++ (if tuple then sgTupleFields c a ns fs else sgFields c a ns fs)
@@ -523,10 +522,9 @@ end
 /-! ## Prefix erasure (what the code's `sample_group` actually computes) and its precondition -/
 
 mutual
-/-- the same definition with every flatten prefix removed and everything below a wrapper that does
-not forward `sample_group` cut off -/
+/-- the same definition with every flatten prefix removed -/
 def eraseDef : Def → Def
-  | .wrap w d => if w.forwardsSampleGroup then .wrap w (eraseDef d) else .struct ⟨.preserve, none⟩ .nil
+  | .wrap w d => .wrap w (eraseDef d)
   | .struct a fs => .struct a (eraseFields fs)
   | .enum a tag vi vn tuple fs => .enum a tag vi vn tuple (eraseFields fs)
 def eraseFields : Fields → Fields
@@ -553,27 +551,10 @@ def hasSgField : Field → Bool
 end
 
 mutual
-/-- reports no sample-group pair at all, not even through a `flatten_entry` -/
-def silentDef : Def → Bool
-  | .wrap _ d => silentDef d
-  | .struct _ fs => silentFields fs
-  | .enum _ tag _ _ _ fs => !(match tag with | some t => t.sampleGroup | none => false) && silentFields fs
-def silentFields : Fields → Bool
-  | .nil => true
-  | .cons f fs => silentField f && silentFields fs
-def silentField : Field → Bool
-  | .plain _ _ _ sg _ => !sg
-  | .flatten _ present child => !present || silentDef child
-  | .flattenEntry _ sg => sg.isEmpty
-  | _ => true
-end
-
-mutual
 /-- "no flatten prefix above a sample-group field": every prefixed flatten has a child that reports
-no sample-group pair of its own; and nothing that reports a pair lies below a wrapper that does not
-forward `sample_group` (`ForceFlag`, `WithDimensions`). -/
+no sample-group pair of its own. -/
 def sgPrefixFree : Def → Bool
-  | .wrap w d => (w.forwardsSampleGroup || silentDef d) && sgPrefixFree d
+  | .wrap _ d => sgPrefixFree d
   | .struct _ fs => sgPrefixFreeFields fs
   | .enum _ _ _ _ _ fs => sgPrefixFreeFields fs
 def sgPrefixFreeFields : Fields → Bool
